@@ -1681,3 +1681,37 @@ T('k18_result_accumulator_read_in_loop', ['C18'], (META, GMAIN, '''        n_ok 
 # the 'secret' fragment / the marker as class-level constants: reading them is not reading key material
 T('k18_fragment_in_constants_class', ['C18'], (META, "DEFAULT_PAGE_TITLE = 'Clastic'\n", "DEFAULT_PAGE_TITLE = 'Clastic'\n\n\nclass _Redaction(object):\n    SECRET_FRAGMENT = 'secret'\n    SECRET_MARK = '[REDACTED]'\n"),
   (META, "        if 'secret' in key:\n            trunc_val = '[REDACTED]'", "        if _Redaction.SECRET_FRAGMENT in key:\n            trunc_val = _Redaction.SECRET_MARK"))
+
+# a method the tree defines for all peripherals is accepted outside a try only when its body *is* the fail-soft handler
+_SAFE_METHOD = '''    def get_extra_routes(self):
+        return []
+
+    def safe_get_context(self, injectables):
+        try:
+            return inject(self.get_context, injectables)
+        except Exception as e:
+            return {'exc_content': '%r' % (e,)}
+'''
+_GMAIN_SAFE = '''        for peri in self.peripherals:
+            peri_ctx = peri.safe_get_context(kwargs)
+            full_ctx.setdefault(peri.group_key, {}).update(peri_ctx)
+        return full_ctx
+'''
+B('k18_method_on_peripheral_prelude_unprotected', ['C18'], 'R18.c', (META, "    def get_extra_routes(self):\n        return []\n", _SAFE_METHOD.replace(
+    "        try:\n            return inject(self.get_context, injectables)\n", "        injectables = dict(injectables, title=self.title.strip())\n        try:\n            return inject(self.get_context, injectables)\n")),
+  (META, GMAIN, _GMAIN_SAFE))
+B('k18_method_on_peripheral_narrow', ['C18'], 'R18.c', (META, "    def get_extra_routes(self):\n        return []\n", _SAFE_METHOD.replace("except Exception as e:", "except (KeyError, ValueError) as e:")),
+  (META, GMAIN, _GMAIN_SAFE))
+# .. the same with the peripheral classes in another module (the method is found through the classes meta.py imports)
+T('k18_mv_method_on_peripheral', ['C18'], *_mv([TRUNC, GRI, MPERI, AMPERI, RPERI, BPERI], _PERI_NAMES, header='from ..sinter import inject\n' + _H_PERI,
+                                              moved=[TRUNC, GRI, MPERI.replace("    def get_extra_routes(self):\n        return []\n", _SAFE_METHOD), AMPERI, RPERI, BPERI],
+                                              extra=[(META, GMAIN, _GMAIN_SAFE)]))
+B('k18_mv_method_on_peripheral_reraises', ['C18'], 'R18.c', *_mv([TRUNC, GRI, MPERI, AMPERI, RPERI, BPERI], _PERI_NAMES, header='from ..sinter import inject\n' + _H_PERI,
+                                                               moved=[TRUNC, GRI, MPERI.replace("    def get_extra_routes(self):\n        return []\n", _SAFE_METHOD.replace(
+                                                                   "            return {'exc_content': '%r' % (e,)}", "            raise RuntimeError('%r' % (e,))")), AMPERI, RPERI, BPERI],
+                                                               extra=[(META, GMAIN, _GMAIN_SAFE)]))
+B('k18_mv_method_on_peripheral_no_handler', ['C18'], 'R18.c', *_mv([TRUNC, GRI, MPERI, AMPERI, RPERI, BPERI], _PERI_NAMES, header='from ..sinter import inject\n' + _H_PERI,
+                                                                 moved=[TRUNC, GRI, MPERI.replace("    def get_extra_routes(self):\n        return []\n",
+                                                                                                  "    def get_extra_routes(self):\n        return []\n\n    def safe_get_context(self, injectables):\n        return inject(self.get_context, injectables)\n"),
+                                                                        AMPERI, RPERI, BPERI],
+                                                                 extra=[(META, GMAIN, _GMAIN_SAFE)]))
